@@ -153,7 +153,7 @@ func PlayMode(beh M, rng *rand.Rand, proj *Projection, mode int) ([]M, error) {
 				// the first and waits for the rest
 				k = 1 + (k-1)%(len(b)-1)
 				conn.Send(b[:k])
-				conn.WaitQuiet(WaitTimeout) //nolint
+				conn.WaitQuiet(WaitTimeout)                   //nolint
 				conn.Send(b[k:], mem.Ev{"k": "send", "m": m}) // only now has the message been sent
 			} else {
 				conn.Send(append(gluedBytes, b...), append(gluedEvs, mem.Ev{"k": "send", "m": m})...)
